@@ -185,7 +185,7 @@ struct HashMgrSim : Sim {
                 // under test): a caller may hash any readable memory, and code that uses one of its own addresses as a sentinel or scratch
                 // must still hash it correctly
                 p.cfg["libdata"] = g.chance(1, 8) ? 1 : 0;
-                p.cfg["giant"] = (lanes >= 4 && K >= 2 && g.chance(1, 12)) ? (int64_t) (1 + g.below(1 << 20)) : 0;
+                p.cfg["giant"] = (lanes >= 4 && K >= 2 && g.chance(lanes >= 16 ? 2 : 1, 12)) ? (int64_t) (1 + g.below(1 << 20)) : 0;
                 p.cfg["giant_at"] = (int64_t) g.below(40);
                 bool giant_full = false;
                 if (p.cfg["giant"] && g.chance(3, 4)) {
@@ -195,6 +195,29 @@ struct HashMgrSim : Sim {
                 int nops = 10 + (int) g.below(thorough ? 190 : 120);
                 int w_submit = 60 + (int) g.below(30), w_flush = (int) g.below(15), w_drain = (int) g.below(5), w_restart = (int) g.below(6),
                     w_zero = (int) g.below(5), w_reject = faults ? 3 + (int) g.below(15) : 0;
+                // several giants at once: a scripted fill of the (drained) manager in which the i-th submission is a giant (>= 2^31 bytes) iff bit i
+                // of the mask is set - whole halves, interleaved groups of 4 or 8 lanes, single groups - and a short job otherwise; the short
+                // traffic then continues with every lane occupied. Lane-length minima are computed group by group, and a group made of giants
+                // only meets a group with short jobs only under such layouts.
+                p.cfg["giant_mask"] = 0;
+                if (giant_full && lanes >= 8 && g.chance(2, 3)) {
+                        static const uint32_t masks[20] = { 0x0000ffffu, 0xffff0000u, 0x0000ffffu, 0xffff0000u, 0x0000ffffu, 0xffff0000u, 0x0f0f0f0fu,
+                                                            0xf0f0f0f0u, 0x00ff00ffu, 0xff00ff00u, 0x00000f0fu, 0x0000f0f0u, 0x0f0f0000u, 0xf0f00000u,
+                                                            0x000000ffu, 0x0000ff00u, 0x00ff0000u, 0xff000000u, 0x33333333u, 0x7fffffffu };
+                        uint32_t m = g.chance(1, 6) ? (uint32_t) g.next() : masks[g.below(20)];
+                        if (lanes == 16 && (m & 0xffffu) == 0xffffu)
+                                m = g.chance(1, 2) ? 0x00ffu : 0xff00u; // halves of a 16-lane manager
+                        if (lanes == 8 && (m & 0xffu) == 0xffu)
+                                m = g.chance(1, 2) ? 0x0fu : 0xf0u;
+                        uint32_t lm = lanes < 32 ? (1u << lanes) - 1 : 0xffffffffu;
+                        m &= lm;
+                        if (m == lm)
+                                m &= ~(1u << (lanes / 2)); // at least one lane must hold a short job, or the first full round hashes a giant
+                        if (m == 0)
+                                m = 1;
+                        p.cfg["giant_mask"] = (int64_t) m;
+                        p.cfg["clients"] = K = __builtin_popcount(m) + lanes + 2 + (int) g.below(lanes);
+                }
                 if (giant_full) {
                         // long enough to fill the lanes and then schedule many rounds with all of them occupied; (almost) no flushes
                         nops += 4 * lanes;
@@ -260,8 +283,9 @@ struct HashMgrSim : Sim {
                 int64_t len_fixed = 0;
                 bool jump_run = false;    // C15 counter-jump workload
                 bool libdata = false;     // some segments are taken from the library's static data
-                int64_t giant = 0;        // != 0: client 0 is the giant client
-                bool giant_inflight = false;
+                int64_t giant = 0;        // != 0: clients 0 .. ngiant-1 are giant clients
+                int ngiant = 0, giants_inflight = 0, giants_used = 0;
+                uint32_t giant_mask = 0;
                 bool poisoned_api = false; // an earlier rejection happened (C11 "later valid call" clause is live)
                 std::string tag;           // "sha256/avx2/isal"
                 int last_kind = 0;
@@ -349,6 +373,10 @@ struct HashMgrSim : Sim {
                                             false);
                         c.in_flight = false;
                         s.inflight--;
+                        if (ci < s.ngiant && s.giants_inflight > 0) {
+                                s.giants_inflight--; // a giant segment came back (it was hashed to its end, or the manager lost track of it)
+                                c.contract_broken = true; // no reference digest is kept for giants
+                        }
                 }
                 uint32_t st = u32(c.ctx, d.off_status);
                 e.obs(0x100 + ci, st);
@@ -451,7 +479,7 @@ struct HashMgrSim : Sim {
         std::vector<int> eligible(St &s, std::function<bool(const Client &)> pred)
         {
                 std::vector<int> v;
-                for (size_t i = s.giant ? 1 : 0; i < s.cl.size(); i++) // client 0 is reserved for the giant segment
+                for (size_t i = (size_t) s.ngiant; i < s.cl.size(); i++) // the first clients are reserved for the giant segments
                         if (pred(s.cl[i]))
                                 v.push_back((int) i);
                 return v;
@@ -577,7 +605,7 @@ struct HashMgrSim : Sim {
                         process_return(s, ret, ci, "submit");
                 }
                 post_call_invariants(s, "submit");
-                for (int guard = 0; c.in_flight && guard < 64 && !(s.giant_inflight && s.inflight < 2); guard++)
+                for (int guard = 0; c.in_flight && guard < 64 && !(s.giants_inflight > 0 && s.inflight <= s.giants_inflight); guard++)
                         op_flush(s, false);
         }
 
@@ -671,17 +699,22 @@ struct HashMgrSim : Sim {
         }
 
         // the giant client's only submission: one FIRST segment of 2^30 .. 2^32-1 bytes taken from the periodic window
-        void op_giant(St &s)
+        void op_giant(St &s, int gi = 0)
         {
                 Env &e = *s.env;
                 build_window();
-                Client &c = s.cl[0];
-                uint64_t g = (uint64_t) s.giant;
+                Client &c = s.cl[gi];
+                uint64_t g = (uint64_t) s.giant + (uint64_t) gi * 13;
+                if (s.ngiant > 1)
+                        g = (g & ~7ull) | (2 + g % 5); // several giants: all of them >= 2^31 - 64 bytes (classes 2..6)
+                s.giants_used++;
                 static const uint64_t cls[8] = { 1ull << 30, (1ull << 30) - 64, 1ull << 31, (1ull << 31) - 64, (1ull << 31) + 64, (1ull << 32) - 64,
                                                  (1ull << 32) - 1, 0 };
                 uint64_t len = cls[g % 8];
                 if (!len)
                         len = (1ull << 30) + (mix64(s.plan_seed, 0x91a27) % ((3ull << 30) - 1));
+                if (s.ngiant > 1 && len < (1ull << 31))
+                        len = (1ull << 31) + 64 * (uint64_t) gi;
                 const uint8_t *buf = window_base() + (g >> 3) % 4096;
                 c.total = len;
                 c.started = true;
@@ -701,17 +734,17 @@ struct HashMgrSim : Sim {
                                     strfmt("%s: valid submit of a %llu-byte segment returned error %d", s.tag.c_str(), (unsigned long long) len, rc));
                 c.in_flight = true;
                 s.inflight++;
-                s.giant_inflight = true;
+                s.giants_inflight++;
                 if (ret == (uint64_t) (uintptr_t) c.ctx) {
                         // would mean the whole segment was hashed inside submit: not expected of a family with >= 4 lanes, but legal
-                        e.obs(0x10, 0);
+                        e.obs(0x10, (uint64_t) gi);
                         c.in_flight = false;
                         s.inflight--;
-                        s.giant_inflight = false;
+                        s.giants_inflight--;
                         c.contract_broken = true; // no reference digest for it
-                        handed_back(s, 0, "its own submit", false);
+                        handed_back(s, gi, "its own submit", false);
                 } else
-                        process_return(s, ret, 0, "submit");
+                        process_return(s, ret, gi, "submit");
                 post_call_invariants(s, "submit");
                 state_probe(s, 9);
         }
@@ -722,7 +755,7 @@ struct HashMgrSim : Sim {
                 int guard = 0;
                 // with the giant segment in flight a flush is only issued while some other job is in flight too (that one is the
                 // minimum and comes back); flushing the giant alone would hash all of it
-                if (s.giant_inflight && s.inflight < 2)
+                if (s.giants_inflight > 0 && s.inflight <= s.giants_inflight)
                         return;
                 do {
                         s.r->cov.hit(strfmt("probe_lane_occupancy_at_flush_%d", std::min(s.inflight, 32)));
@@ -745,7 +778,7 @@ struct HashMgrSim : Sim {
                         state_probe(s, 8);
                         if (ret == 0)
                                 break;
-                        if (s.giant_inflight && s.inflight < 2)
+                        if (s.giants_inflight > 0 && s.inflight <= s.giants_inflight)
                                 break;
                         if (++guard > 200) {
                                 e.violation("C06", "drain-not-terminating", "C06/drain-not-terminating/" + s.tag,
@@ -899,6 +932,7 @@ struct HashMgrSim : Sim {
                 s.len_mode = (int) p.get("len_mode");
                 s.len_fixed = p.get("len_fixed");
                 s.giant = p.get("giant");
+                s.giant_mask = (uint32_t) p.get("giant_mask");
                 s.libdata = p.get("libdata") != 0;
                 s.tag = std::string(s.d->name) + "/" + s.f->name + "/" + (s.api == API_FAMILY ? "family" : s.api == API_ISAL ? "isal" : "legacy");
                 const AlgoDesc &d = *s.d;
@@ -915,6 +949,14 @@ struct HashMgrSim : Sim {
                 }
                 s.ctx_out = (uint64_t *) e.mem.alloc(8, 8, END_FLUSH, &e.hidden, "ctx_out slot", R_OUTPUT);
                 int K = (int) std::max<int64_t>(1, std::min<int64_t>(p.get("clients"), 100));
+                if (s.giant && K >= 2 && s.f->lanes >= 4) {
+                        uint32_t lm = s.f->lanes >= 32 ? 0xffffffffu : ((1u << s.f->lanes) - 1);
+                        if ((s.giant_mask & lm) == lm)
+                                s.giant_mask &= ~(1u << (s.f->lanes / 2));
+                        s.ngiant = (s.giant_mask & lm) ? __builtin_popcount(s.giant_mask & lm) : 1;
+                        if (s.ngiant > 1 && K < s.ngiant + 2)
+                                s.ngiant = 1, s.giant_mask = 0;
+                }
                 s.cl.resize(K);
                 for (int i = 0; i < K; i++) {
                         Client &c = s.cl[i];
@@ -959,8 +1001,31 @@ struct HashMgrSim : Sim {
                 for (size_t i = 0; i < p.ops.size(); i++) {
                         e.op_index = (int) i;
                         const Op &o = p.ops[i];
-                        if (s.giant && !s.cl[0].ever_used && K >= 2 && s.f->lanes >= 4 && (int64_t) i >= p.get("giant_at") % (int64_t) std::max<size_t>(1, p.ops.size()))
-                                op_giant(s);
+                        if (s.ngiant && !s.giants_used && (int64_t) i >= p.get("giant_at") % (int64_t) std::max<size_t>(1, p.ops.size())) {
+                                if (s.ngiant == 1)
+                                        op_giant(s, 0);
+                                else {
+                                        // scripted fill of the drained manager: submission i is a giant iff bit i of the mask is set
+                                        op_flush(s, true);
+                                        int gi = 0;
+                                        for (int ln = 0; ln < s.f->lanes; ln++) {
+                                                if ((s.giant_mask >> ln) & 1) {
+                                                        if (gi < s.ngiant)
+                                                                op_giant(s, gi++);
+                                                } else {
+                                                        Op so;
+                                                        so.kind = OP_SUBMIT;
+                                                        uint64_t hx = mix64(p.seed, 0x6f11 + (uint64_t) ln);
+                                                        so.a = (int64_t) (hx & 0xffff);
+                                                        so.b = (int64_t) ((hx >> 16) & 0xffff);
+                                                        so.c = (int64_t) ((hx >> 32) & 0xffff);
+                                                        so.d = (int64_t) ((hx >> 48) & 0xffff);
+                                                        op_submit(s, so, false, false);
+                                                }
+                                        }
+                                        s.r->cov.hit(strfmt("probe_scripted_fill_with_%d_giants", s.ngiant));
+                                }
+                        }
                         switch (o.kind) {
                         case OP_SUBMIT: op_submit(s, o, false, false); break;
                         case OP_RESTART: op_submit(s, o, true, false); break;
@@ -974,9 +1039,11 @@ struct HashMgrSim : Sim {
                 // end of run: drain; every accepted LAST must have come back COMPLETE
                 e.op_index = (int) p.ops.size();
                 op_flush(s, true);
-                if (s.giant_inflight)
+                if (s.giants_inflight)
                         s.r->cov.hit("probe_manager_abandoned_with_giant_unfinished");
-                for (size_t i = s.giant_inflight ? 1 : 0; i < s.cl.size(); i++) {
+                for (size_t i = 0; i < s.cl.size(); i++) {
+                        if ((int) i < s.ngiant && s.cl[i].in_flight)
+                                continue; // a giant left unfinished on purpose
                         Client &c = s.cl[i];
                         if (c.in_flight)
                                 e.violation("C06", "stranded", "C06/stranded/" + s.tag,
@@ -1096,7 +1163,7 @@ Plan HashMgrSim::generate_long(uint64_t seed, bool thorough, uint64_t run_index,
         // which thresholds to cross: 1 = 2^29, 2 = 2^32, 3 = 2^32 + 2^29
         int target;
         if (thorough)
-                target = (run_index / pairs.size()) % 2 == 0 ? 3 : 2; // (this sim owns run indices 0..9 and 570..615 of the thorough tier)
+                target = (run_index / pairs.size()) % 2 == 0 ? 3 : 2; // (this sim owns run indices 0..9 and 682..727 of the thorough tier)
         else
                 target = 2; // every pair crosses 2^29 and 2^32 in one stream
         p.cfg["algo"] = pr.first;
@@ -1652,6 +1719,57 @@ struct HashEndureSim : HashMgrSim {
 };
 } // namespace
 Sim *make_hashendure_sim() { return new HashEndureSim(); }
+namespace {
+// quota workload: the scripted fill with several giants on every family with >= 8 lanes in turn, all mask layouts in turn
+struct HashFillSim : HashMgrSim {
+        const char *name() const override { return "hashfill"; }
+        Plan generate(uint64_t seed, const std::string &focus, bool thorough, uint64_t idx) override
+        {
+                Plan p = HashMgrSim::generate(seed, focus, thorough, idx);
+                std::vector<std::pair<int, int>> wide;
+                for (int a = 0; a < A_N; a++)
+                        for (size_t f = 0; f < g_algos[a].fams.size(); f++)
+                                if (g_algos[a].fams[f].lanes >= 8)
+                                        wide.emplace_back(a, (int) f);
+                if (wide.empty())
+                        return p;
+                auto pr = wide[idx % wide.size()];
+                int lanes = g_algos[pr.first].fams[pr.second].lanes;
+                static const uint32_t masks[10] = { 0x0000ffffu, 0xffff0000u, 0x0f0f0f0fu, 0xf0f0f0f0u, 0x00ff00ffu, 0xff00ff00u, 0x00000f0fu, 0x0000f0f0u, 0x000000ffu, 0x7fffffffu };
+                // (the two halves in two of three visits of a pair, the other layouts in turn)
+                uint32_t m = idx % 3 == 0 ? 0x0000ffffu : idx % 3 == 1 ? 0xffff0000u : masks[(idx / wide.size()) % 10];
+                if (lanes == 16 && (m & 0xffffu) == 0xffffu)
+                        m = (idx & 1) ? 0x00ffu : 0xff00u;
+                if (lanes == 8 && (m & 0xffu) == 0xffu)
+                        m = (idx & 1) ? 0x0fu : 0xf0u;
+                uint32_t lm = lanes < 32 ? (1u << lanes) - 1 : 0xffffffffu;
+                m &= lm;
+                if (m == lm)
+                        m &= ~(1u << (lanes / 2));
+                if (m == 0)
+                        m = 1;
+                p.cfg["algo"] = pr.first;
+                p.cfg["family"] = pr.second;
+                p.cfg["giant"] = 1 + (int64_t) (mix64(seed, 0x91) % (1 << 20));
+                p.cfg["giant_mask"] = (int64_t) m;
+                p.cfg["giant_at"] = 0;
+                p.cfg["clients"] = __builtin_popcount(m) + 2 * lanes + 2;
+                p.cfg["faults"] = 0;
+                p.cfg["libdata"] = 0;
+                // short traffic only, no flushes: every later submit finds all lanes occupied
+                for (auto &o : p.ops)
+                        if (o.kind != OP_SUBMIT)
+                                o.kind = OP_SUBMIT;
+                while (p.ops.size() < (size_t) (4 * lanes)) {
+                        Op o = p.ops[p.ops.size() % std::max<size_t>(1, p.ops.size())];
+                        o.a += 7919;
+                        p.ops.push_back(o);
+                }
+                return p;
+        }
+};
+} // namespace
+Sim *make_hashfill_sim() { return new HashFillSim(); }
 namespace {
 struct HashJumpSim : HashMgrSim {
         const char *name() const override { return "hashjump"; }
